@@ -2,19 +2,9 @@
 """Regenerate /verif/MANIFEST.json from tools/props.py + the table below (keeps the file valid at all times)."""
 import json, os, sys
 sys.path.insert(0, os.path.dirname(os.path.abspath(__file__)))
-from props import PROPS
+from props import PROPS, TEXT
 
 VERIF = os.path.abspath(os.path.join(os.path.dirname(__file__), '..'))
-
-TEXT = {
-    'C09': ('Rocq theorems (Props/C09.v, closed under the global context) for every codec over its whole domain: new-format length round trip '
-            'and RFC-value and shortest-form for all n < 2^32 and all octet strings, partial-length reassembly by induction over an unbounded '
-            'chunk list, old-format header never-narrow, MPI round trip / exact bit count / RFC value for all v, time, all 256 counts, subpacket '
-            'headers. Tie: translator (Gen/ regenerated from source, Refine_wire.v) + exhaustive/randomised correspondence of the extracted model '
-            'and direct RFC oracles on the implementation.',
-            'DESIGN.md 5 C09',
-            'machine-checked proof in Rocq (Coq 8.16.1) + AST translator + extracted-model correspondence'),
-}
 
 PENDING_REASON = 'check not built yet in this session (work in progress; see DESIGN.md section 8 build order)'
 
